@@ -142,6 +142,13 @@ def build_jobs(t_, sd):
                     for be in ("main", "sub"):
                         jobs.append({"id": "intexpr-%s:%s@v%d/%s" % (nm, T.T_str(t), v, be), "family": "literal:int-expr", "type": to_json(t), "lens": [0], "version": v,
                                      "backend": be, "literal": to_json(lit), "int_exprs": True, "fn": "encode"})
+    # an ABI integer set from another ABI integer (every pair of widths): whatever PyTeal accepts must not truncate silently
+    for tb in (8, 16, 32, 64):
+        for sb in (8, 16, 32, 64):
+            for v in ((6, 8) if not thorough else (5, 6, 8, 10)):
+                for be in ("main", "sub"):
+                    jobs.append({"id": "copy:uint%d<-uint%d@v%d/%s" % (tb, sb, v, be), "family": "copy", "target_bits": tb, "source_bits": sb, "version": v,
+                                 "backend": be, "fn": "copy", "type": to_json(("uint", tb)), "lens": []})
     # long literal strings / byte arrays around the one-byte boundary of the length prefix
     for n in (254, 255, 256, 300, 1000):
         for t in (G.STR, G.DB, G.tup(G.U8, G.STR)):
@@ -157,6 +164,9 @@ def build_jobs(t_, sd):
 def dispatch(job):
     if job.get("fn") == "descriptor":
         return descriptor_job(job)
+    if job.get("fn") == "copy":
+        from ..arc4.abijob import copy_job
+        return copy_job(job)
     from ..arc4.abijob import encode_job
     return encode_job(job)
 
@@ -179,7 +189,11 @@ def replay(record):
     job = dict(record["job"])
     if record.get("kind") == "descriptor":
         return bool(descriptor_job(job)["violations"])
-    r = encode_job(job)
+    if job.get("fn") == "copy":
+        from ..arc4.abijob import copy_job
+        r = copy_job(job)
+    else:
+        r = encode_job(job)
     print([(v.get("what"), v.get("teal_outcome"), v.get("reference_outcome")) for v in r["violations"]][:2])
     return bool(r["violations"])
 
